@@ -21,7 +21,7 @@ func init() {
 		Rule:           "ALL schemas of the rule-free fragment with <= 3 (thorough 4) example nodes (5 scalar kinds, objects over keys a,b, arrays; every node independently nullable:true/false and type:any where legal, every property optional:true/false/unmarked) x ALL JSON documents with <= 4 (5) nodes over {1,1.5,\"s\",true,null,{},[]} with keys a,b,c in every key order, under both KeysAreOptionalByDefault settings; plus depth-5 spines (all 16 object/array nestings, width <= 2, every flag placement) with all documents within 2 structural edits of the example. Oracle: reference shape matcher (three-valued) + differential: optional-by-default == default with every unmarked key marked optional. Non-trivial = distinct (schema, config, document) on which Check succeeded and the reference is decided.",
 		Run:            run,
 		Replay:         replay,
-		QuickBudget:    80 * time.Second,
+		QuickBudget:    150 * time.Second,
 		ThoroughBudget: 14 * time.Minute,
 		Assumptions: []string{
 			"documents with duplicate keys are not asserted",
@@ -203,6 +203,15 @@ func evalSchema(c *ev.Ctx, root *gen.Node, docs []*gen.JV, withDifferential bool
 			o := sc.Outcome{Check: r, Val: res, Ref: want}
 			if dir := o.Direction(); dir != "" {
 				report(c, cs, dir)
+			}
+			// the same document with every key spelled with a \uXXXX escape: keys are compared decoded
+			if d.HasKeys() && !d.HasDupKeys() {
+				esc := d.CompactKeys(gen.EscapedKey)
+				if eres := lib.Validate(s, esc); eres.OK != res.OK {
+					c.Violate("key-spelling;"+cs.Describe(),
+						fmt.Sprintf("%s: verdict %s, but %s for the same document with its keys spelled with escapes: %s", cs.Describe(), res, eres, esc), cs)
+				}
+				c.Inc("escaped_key_documents")
 			}
 			if sTwin != nil && !d.HasDupKeys() {
 				tres := lib.Validate(sTwin.s, text)
